@@ -4,7 +4,7 @@ import json
 import os
 
 ROOT = "/verif"
-HOOK_COMMITS = ["9464261", "db74668", "82c77a2", "4c6d354", "d980f79"]
+HOOK_COMMITS = ["9464261", "db74668", "82c77a2", "4c6d354", "d980f79", "b9c8edd"]
 
 TB = ("Trusted: Coq 8.16.1 kernel (+vm_compute for evaluating the model on correspondence cases; no native_compute); "
       "the hand-written Gallina model, tied to /repo only by this check's correspondence run against the binary built from /repo's working tree with --cfg vicut_verif; "
@@ -104,6 +104,13 @@ CLAIMED = {
         note=TB + "That retyping X parses to the stored ViCmd, and with_count n X to X typed with count n, is validated by the check, not proved (the normal-mode parser is not modelled).",
         technique="Coq proof (invariant: stored change = last repeatable command) + differential check dot vs retyped",
         design="§9 C20"),
+    "C08": dict(
+        text="Theorems (the buffer as its list of grapheme clusters, every cluster range [s,e), hence every motion and text object): delete/change put exactly the removed text into the register and preserve pre and post; yank leaves the text and stores the covered span, the same text a delete over that span removes; put inserts exactly the pieces, delete-then-put restores the text; "
+             "upper-case registers append, lower-case overwrite; case operators preserve the cluster count and every cluster outside the span and map only one-character clusters; toggling touches only ASCII letters. "
+             "Correspondence/oracles in-process with the ViCmd trace: pre+mid+post decomposition against the dumped registers (append included), yank vs delete over the same motion, put, insert sessions, case operators, r; the drain+register primitive replayed on the model with the same cluster range.",
+        note=TB + "Which range a motion selects belongs to C02; block registers are exercised by C01/C02 only.",
+        technique="Coq proof (list-splitting lemmas over cluster lists) + trace-based oracles and primitive replay",
+        design="§9 C08"),
 }
 
 NOT_YET = {}
